@@ -11,6 +11,7 @@ import (
 func init() { register("C16", propC16) }
 
 func propC16(c *Ctx) propInfo {
+	c.loopVarEscape("E17.loopvar-escape", "tlb") // every reported transaction is the one stored at that position
 	c.identityHashCapture("tlb", "Message.UnmarshalTLB")
 	c.identityHashCapture("tlb", "Transaction.UnmarshalTLB")
 	c.normalisedHash()
